@@ -42,12 +42,17 @@ func main() {
 			fmt.Println("CHECKER-FAILURE", err)
 			os.Exit(2)
 		}
-		b, _ := json.MarshalIndent(inv, "", " ")
+		srcs, err := norm.Sources(*repo)
+		if err != nil {
+			fmt.Println("CHECKER-FAILURE", err)
+			os.Exit(2)
+		}
+		b, _ := json.MarshalIndent(map[string]any{"inventory": inv, "sources": srcs}, "", " ")
 		fmt.Println(string(b))
 		return
 	}
 	if *shownorm {
-		res, err := norm.Normalise(*repo, nil, norm.Confirmed())
+		res, err := norm.Normalise(*repo, nil, norm.Confirmed(), norm.ConfirmedSources())
 		if err != nil {
 			fmt.Println("CHECKER-FAILURE", err)
 			os.Exit(2)
@@ -123,7 +128,7 @@ func analyse(c *props.Check, tier, repo string, overlay map[string][]byte, seed 
 	}()
 	// bring new unexported helpers and renamed helpers back to the confirmed
 	// function inventory (identity on a tree that adds no function)
-	nres, nerr := norm.Normalise(repo, overlay, norm.Confirmed())
+	nres, nerr := norm.Normalise(repo, overlay, norm.Confirmed(), norm.ConfirmedSources())
 	if nerr != nil {
 		return r, fmt.Errorf("normalisation: %v", nerr)
 	}
